@@ -163,6 +163,16 @@ func init() {
 		}
 		return Iface{}
 	})
+	// handles returned by the virtual environment's OpenFile / Create
+	for _, meth := range []string{"Close", "Sync"} {
+		reg("(*os.File)."+meth, func(m *Machine, fn *ssa.Function, a []Value) Value { return Iface{} })
+	}
+	reg("(*os.File).Write", func(m *Machine, fn *ssa.Function, a []Value) Value {
+		return Tuple{fromTerm(BLen(toTerm(bytesString(a[1])))), Iface{}}
+	})
+	reg("(*os.File).WriteString", func(m *Machine, fn *ssa.Function, a []Value) Value {
+		return Tuple{fromTerm(BLen(toTerm(a[1]))), Iface{}}
+	})
 	reg("fmt.Sprint", func(m *Machine, fn *ssa.Function, a []Value) Value {
 		return fromTerm(m.sprint(sliceElems(a[0].(Slice))))
 	})
